@@ -24,6 +24,7 @@ def sh(cmd, **kw):
 
 def main():
     pid, mdir, name = sys.argv[1:4]
+    mdir = os.path.abspath(mdir)
     tier = 'quick'
     also = []
     args = sys.argv[4:]
